@@ -118,9 +118,10 @@ impl<R: DynamicChannelRegion> RegionHandler for DynamicChannelPlan<R> {
                     // unused channels are set to 0
                     if value == 0 {
                         self.channels[index] = None;
-                    } else {
+                    } else if self.frequency_valid(value) {
                         self.channels[index] = Some(Channel::new(value, DR::_0, DR::_5));
                     }
+                    // a frequency outside the region's band is ignored
                 }
             }
             // Type 1
